@@ -42,10 +42,14 @@ pub struct FilterCase {
 
 pub fn case_strategy(filter: impl Strategy<Value = u8>) -> impl Strategy<Value = FilterCase> {
     (
-        proptest::collection::vec(any::<u16>(), 1..=20),
-        proptest::collection::vec(0u8..3, 20),
+        prop_oneof![
+            12 => proptest::collection::vec(any::<u16>(), 1..=20),
+            2 => proptest::collection::vec(any::<u16>(), 21..=70),
+            1 => proptest::collection::vec(any::<u16>(), 71..=300),
+        ],
+        proptest::collection::vec(0u8..3, 300),
         0usize..=3,
-        proptest::collection::vec(proptest::collection::vec(prop::option::weighted(0.4, 0u8..6), 3), 20),
+        proptest::collection::vec(proptest::collection::vec(prop::option::weighted(0.4, 0u8..6), 3), 300),
         filter,
         proptest::collection::vec(
             (any::<u16>(), 1usize..=3, proptest::collection::vec(prop::option::weighted(0.7, 0u8..6), 0..=4)),
